@@ -74,7 +74,7 @@ def main(ctx):
     if replay:
         lines = replay
     else:
-        rc, out = vf.sh([os.path.join(bindir, "c12"), "gen", str(ctx.seed), str(ctx.n(300, 3000)), ctx.tier], timeout=900)
+        rc, out = vf.sh([os.path.join(bindir, "c12"), "gen", str(ctx.seed), str(ctx.n(300, 1500)), ctx.tier], timeout=900)
         if rc != 0:
             raise vf.CheckerBroken("c12 gen failed: " + out[-500:])
         lines = [l for l in out.split("\n") if l.strip()]
